@@ -11,7 +11,9 @@ PROPS["C05"] = {
                   "that is Fifo.lastn N of the accepted puts - what C08 proves a FiniteReplayer of capacity N to be - and fewer than N "
                   "messages published during each absence, the bounded system equals the unbounded one connection by connection, so the "
                   "same conclusion holds for every N (C05_bounded_replayer_is_unbounded, C05_end_to_end_bounded, C05_resume_from_last_N; "
-                  "the unbounded statement is the instance N >= history, C05_unbounded_is_instance); without the proviso events are lost "
+                  "the unbounded statement is the instance N >= history, C05_unbounded_is_instance), and more generally for ANY replayer that "
+                  "holds a suffix of the put history, keep(cn) newest puts at the registration of connection cn "
+                  "(C05_end_to_end_any_suffix_replayer; a ValidReplayer's collection removes a prefix: C05_collect_keeps_a_suffix); without the proviso events are lost "
                   "(C05_too_small_replayer_loses_events, computed witness). The parts the composition rests on are the other properties' models "
                   "(wire: C02/C15; interpreter = parser: C01; Last-Event-ID rule: C10; resume: C08/C09; replay+register atomic: C04). "
                   "Tie: the library's Client runs against the library's Server+Joe+replayer over in-memory connections cut at scripted raw "
